@@ -54,9 +54,9 @@ class Parser(ParseContext):
     ) -> None:
         self.rulesource = rulesource
 
-        config = ParserConfig.new(config, **settings)
+        # NOTE: a config built from defaults here would override the rule source's own settings
         srcconfig = ParserConfig.new(getattr(rulesource, '_config', None))
-        config = srcconfig.override_config(config)
+        config = srcconfig.override_config(config).override(**settings)
 
         super().__init__(config=config)
 
